@@ -39,7 +39,7 @@ theorem spok_complete_core (hA : ArithOK) (cs : Suite) (σ : Signature) (cpk : C
     (hNeq : cpk.N = pk.N) (hN : 1 < pk.N)
     (hg : ∀ g ∈ cpk.gBases, IsU pk.N g) (hh : IsU pk.N cpk.h)
     (ha : ∀ a ∈ bases, IsU pk.N a) (hb : IsU pk.N pk.b) (hc : IsU pk.N pk.c)
-    (hv : IsU pk.N σ.v)
+    (hv : IsU pk.N σ.v) (hv0 : 0 ≤ σ.v)
     (hsig : σ.e • rp pk.N σ.v =
       (∑ j ∈ Finset.range msgs.length, (msgs.getD j 0) • rp pk.N (bases.getD j 1))
         + σ.s • rp pk.N pk.b + rp pk.N pk.c)
@@ -89,6 +89,9 @@ theorem spok_complete_core (hA : ArithOK) (cs : Suite) (σ : Signature) (cpk : C
     rw [hCvv, isU_tmod (by omega)]; exact isU_mul hv (isU_can hN _)
   have hCvr : rp N Cv.value = rp N σ.v + Cv.randomness • rp N (gs.getD 0 1) := by
     rw [hCvv, rp_tmod (by omega), rp_mul hv (isU_can hN _), rp_can hN]
+  have hCvR : 0 ≤ Cv.value ∧ Cv.value < N := by
+    rw [hCvv, tmod_good hN (good_mul ⟨hv0, hv⟩ (good_can hN _))]
+    exact ⟨can_nonneg _, can_lt hN _⟩
   clear hCx hCv hCw hCe hCvv
   -- r5
   obtain ⟨hr5l, hr5m⟩ := drawR5_inv _ _ hr5
@@ -151,6 +154,9 @@ theorem spok_complete_core (hA : ArithOK) (cs : Suite) (σ : Signature) (cpk : C
     divm_one_unit hA hN hh, divm_one_unit hA hN hb, tmod_good hN hQ1g, divm_one_can hA hN,
     tmod_good hN, good_mul, good_can hN, hQ4g, rp_mul_good, rp_can hN, pure_apply]
   refine congrArg (fun z => CRes.ok (z, tv)) ?_
+  -- the four commitments are `tmod … N` results of non-negative numbers: reduced
+  simp only [Bool.and_eq_true, decide_eq_true_eq]
+  refine ⟨⟨⟨⟨?_, can_nonneg _, can_lt hN _⟩, hCvR⟩, can_nonneg _, can_lt hN _⟩, can_nonneg _, can_lt hN _⟩
   rw [beq_iff_eq]
   refine Eq.trans (congrArg hashInts ?_) hcdef
   simp only [List.cons.injEq, and_true]
@@ -203,9 +209,10 @@ theorem spok_complete (hA : ArithOK) (cs : Suite) (σ : Signature) (cpk : Commit
   have ha : ∀ a ∈ bases, IsU pk.N a := fun a h => isU_of_gcd hN0 (hp.ha a h)
   have hb := isU_of_gcd hN0 hp.hb
   have hc := isU_of_gcd hN0 hp.hc
-  obtain ⟨hn1, -, -, -, hv, hsig⟩ := verifyMultiattr_true_inv hA hp.hN ha hb hc hσ
+  obtain ⟨hn1, -, -, -, hv, hvr, hsig⟩ := verifyMultiattr_true_inv hA hp.hN ha hb hc hσ
   exact (spok_complete_core hA cs σ cpk pk bases msgs U hp.hNeq hp.hN
-    (fun g h => isU_of_gcd hN0 (hp.hg g h)) (isU_of_gcd hN0 hp.hh) ha hb hc hv hsig hn1 hp.hn2 hp.hn0
+    (fun g h => isU_of_gcd hN0 (hp.hg g h)) (isU_of_gcd hN0 hp.hh) ha hb hc hv (le_of_lt hvr.1) hsig hn1
+    hp.hn2 hp.hn0
     hU π t t' hgen).1 tv
 
 /-! ### `proofGen` / `proofVerify` -/
@@ -339,7 +346,7 @@ theorem proof_complete (hA : ArithOK) (cs : Suite) (hRange : RangeComplete cs) (
   have hc := isU_of_gcd hN0 hp.hc
   have hg : ∀ g ∈ cpk.gBases, IsU pk.N g := fun g h => isU_of_gcd hN0 (hp.hg g h)
   have hh := isU_of_gcd hN0 hp.hh
-  obtain ⟨hn1, he1, he2, hm, hv, hsig⟩ := verifyMultiattr_true_inv hA hp.hN ha hb hc hσ
+  obtain ⟨hn1, he1, he2, hm, hv, hvr, hsig⟩ := verifyMultiattr_true_inv hA hp.hN ha hb hc hσ
   unfold proofGen at hgen
   bstep hgen with spok t1 h1
   bstep hgen with g0 t2 h2
@@ -348,7 +355,7 @@ theorem proof_complete (hA : ArithOK) (cs : Suite) (hRange : RangeComplete cs) (
   obtain ⟨ps, rs⟩ := pr
   obtain ⟨rfl, -⟩ := ok_inj hgen
   obtain ⟨hver, hre0, hCe⟩ := spok_complete_core hA cs σ cpk pk bases msgs U hp.hNeq hp.hN
-    hg hh ha hb hc hv hsig hn1 hp.hn2 hp.hn0 hU spok t _ h1
+    hg hh ha hb hc hv (le_of_lt hvr.1) hsig hn1 hp.hn2 hp.hn0 hU spok t _ h1
   obtain ⟨hg0, -⟩ := idx_ok_iff.mp h2
   have hg0' : cpk.gBases.getD 0 1 = g0 := by rw [List.getD_eq_getElem?_getD, hg0]; rfl
   have hg0U : IsU pk.N g0 := hg0' ▸ hg _ (getD_mem hp.hn0 1)
@@ -379,7 +386,44 @@ theorem accept_hash {π : SignaturePoK} {cpk : CommitmentPK} {pk : PublicKey} {b
     (h : nisp5Verify π cpk pk bases rev U n tv = .ok (true, tv')) :
     ∃ v : View π cpk pk bases rev U n, hashInts v.inputs = π.challenge := by
   obtain ⟨v, hv⟩ := nisp5Verify_view h
-  exact ⟨v, by rw [eq_comm, beq_iff_eq] at hv; exact hv⟩
+  exact ⟨v, by rw [eq_comm, Bool.and_eq_true, beq_iff_eq] at hv; exact hv.1⟩
+
+/-- **Canonical representatives.** An accepting run of the nine-response verifier has checked that the
+values of the four commitments `C_x`, `C_v`, `C_w`, `C_e` are reduced modulo the signer's `N`: each lies
+in `[0, N)`. (Before this check a proof stayed accepted with `N` added to or subtracted from `C_x`, `C_v`
+or `C_w`.) No hypotheses. -/
+theorem nisp5Verify_commitments_reduced {π : SignaturePoK} {cpk : CommitmentPK} {pk : PublicKey}
+    {bases rev : List Int} {U : List Nat} {n : Nat} {tv tv' : List Draw}
+    (h : nisp5Verify π cpk pk bases rev U n tv = .ok (true, tv')) :
+    (0 ≤ π.Cx.value ∧ π.Cx.value < pk.N) ∧ (0 ≤ π.Cv.value ∧ π.Cv.value < pk.N) ∧
+      (0 ≤ π.Cw.value ∧ π.Cw.value < pk.N) ∧ (0 ≤ π.Ce.value ∧ π.Ce.value < pk.N) := by
+  obtain ⟨v, hv⟩ := nisp5Verify_view h
+  rw [eq_comm, Bool.and_eq_true] at hv
+  exact commitmentsReduced_iff.mp hv.2
+
+/-- **At most one representative of each commitment is accepted.** If a proof is accepted, the proof with
+a non-zero multiple of `N` added to the value of `C_x` (resp. `C_v`, `C_w`, `C_e`) is not — for any statement
+with the same signer key, on any tape. -/
+theorem nisp5Verify_rejects_shifted_commitment {π : SignaturePoK} {cpk cpk' : CommitmentPK}
+    {pk pk' : PublicKey} (hpk : pk'.N = pk.N) {bases bases' rev rev' : List Int} {U U' : List Nat}
+    {n n' : Nat} {tv tv' tw tw' : List Draw} {k : Int} (hk : k ≠ 0)
+    (h : nisp5Verify π cpk pk bases rev U n tv = .ok (true, tv')) :
+    nisp5Verify { π with Cx := ⟨π.Cx.value + k * pk.N, π.Cx.randomness⟩ } cpk' pk' bases' rev' U' n' tw
+        ≠ .ok (true, tw') ∧
+    nisp5Verify { π with Cv := ⟨π.Cv.value + k * pk.N, π.Cv.randomness⟩ } cpk' pk' bases' rev' U' n' tw
+        ≠ .ok (true, tw') ∧
+    nisp5Verify { π with Cw := ⟨π.Cw.value + k * pk.N, π.Cw.randomness⟩ } cpk' pk' bases' rev' U' n' tw
+        ≠ .ok (true, tw') ∧
+    nisp5Verify { π with Ce := ⟨π.Ce.value + k * pk.N, π.Ce.randomness⟩ } cpk' pk' bases' rev' U' n' tw
+        ≠ .ok (true, tw') := by
+  obtain ⟨hx, hv, hw, he⟩ := nisp5Verify_commitments_reduced h
+  have sx := shift_not_reduced (N := pk.N) hk hx.1 hx.2
+  have sv := shift_not_reduced (N := pk.N) hk hv.1 hv.2
+  have sw := shift_not_reduced (N := pk.N) hk hw.1 hw.2
+  have se := shift_not_reduced (N := pk.N) hk he.1 he.2
+  refine ⟨fun h' => ?_, fun h' => ?_, fun h' => ?_, fun h' => ?_⟩ <;>
+    obtain ⟨hx', hv', hw', he'⟩ := nisp5Verify_commitments_reduced h' <;>
+    simp only [hpk] at hx' hv' hw' he' <;> omega
 
 theorem idx_mem {α} {l : List α} {i : Nat} {x : α} (h : Cl.idx l i = pure x) : x ∈ l := by
   have := congrFun h []
@@ -830,6 +874,7 @@ theorem spok_surplus_ignored {π : SignaturePoK} {cpk : CommitmentPK} {pk : Publ
     (h : nisp5Verify π cpk pk bases rev U n tv = .ok (true, tv')) (e1 e2 : List Int) (tw : List Draw) :
     nisp5Verify { π with s5 := π.s5 ++ e1 } cpk pk bases (rev ++ e2) U n tw = .ok (true, tw) := by
   obtain ⟨v, hv⟩ := accept_hash h
+  obtain ⟨hrx, hrv, hrw, hre⟩ := nisp5Verify_commitments_reduced h
   have hcond : ¬ (bases.length < n ∧ cpk.gBases.length < n) := by
     intro hc
     unfold nisp5Verify at h
@@ -843,6 +888,8 @@ theorem spok_surplus_ignored {π : SignaturePoK} {cpk : CommitmentPK} {pk : Publ
     v.e_ig, v.e_ig8, v.e_cc, v.e_g7, v.e_h1, v.e_cw, v.e_cw4, v.e_ih, v.e_ih2, v.e_h3, v.e_cx,
     v.e_g4, v.e_h9, v.e_ce, pure_apply]
   refine congrArg (fun z => CRes.ok (z, tw)) ?_
+  simp only [Bool.and_eq_true, decide_eq_true_eq]
+  refine ⟨⟨⟨⟨?_, hrx⟩, hrv⟩, hrw⟩, hre⟩
   rw [beq_iff_eq]
   exact hv
 
